@@ -1,5 +1,6 @@
 import St4sd.Lemmas.C09
 import St4sd.Model.RefSession
+import St4sd.Model.RefDir
 import St4sd.Gen.C09
 /-!
 # C09 — Data references parse, print and classify consistently
@@ -540,7 +541,226 @@ theorem expand_depends_only_on_name_sets (sf : List S) (v : S) (ctx : Nat) (know
   unfold expandPotential expandDecision
   simp only [hc, he]
 
+/-! ## 7. Top-level folders derived from disk (`Model/RefDir.lean`)
+
+The folder set of the clause "top-level or manifest folder of the package" is not an input of the
+code: it is derived from the package / instance directory by `Manifest.fromDirectory` (implied
+manifest), merged with the explicit manifest by `configurationForExperiment`.  The theorems below
+hold for **every** directory listing (any mix of real directories, files, links to directories, links
+to files, broken links, other entries), every explicit manifest and every reference string. -/
+
+/-- names returned by `os.listdir` never contain a `/` -/
+def ListingOk (l : List Entry) : Prop := ∀ e ∈ l, '/' ∉ e.name
+
+/-- **mem_impliedKeys_iff.**  `Manifest.fromDirectory(path, include_dirs=d, include_files=f)` has the
+key `n` iff the directory has an entry called `n` that — links followed — is a directory (and `d`) or
+a regular file (and `f`). -/
+theorem mem_impliedKeys_iff (l : List Entry) (d f : Bool) (n : S) :
+    n ∈ impliedKeys (some l) d f ↔
+      ∃ e ∈ l, e.name = n ∧ ((d = true ∧ e.kind.isDir = true) ∨ (f = true ∧ e.kind.isFile = true)) := by
+  unfold impliedKeys
+  simp only [List.mem_map, List.mem_filter, Bool.or_eq_true, Bool.and_eq_true]
+  constructor
+  · rintro ⟨e, ⟨he, hk⟩, rfl⟩; exact ⟨e, he, rfl, hk⟩
+  · rintro ⟨e, he, rfl, hk⟩; exact ⟨e, ⟨he, hk⟩, rfl⟩
+
+/-- a path that is not a directory has no implied manifest -/
+theorem impliedKeys_not_a_directory (d f : Bool) : impliedKeys none d f = [] := rfl
+
+/-- the left-most folder of a key without `/` is the key -/
+theorem topLevelFolders_flat (keys : List S) (h : ∀ k ∈ keys, '/' ∉ k) : topLevelFolders keys = keys := by
+  induction keys with
+  | nil => rfl
+  | cons k ks ih =>
+    have hk : splitFirst '/' k = none := (splitFirst_none_iff '/' k).mpr (h k (by simp))
+    have := ih (fun x hx => h x (by simp [hx]))
+    unfold topLevelFolders at this ⊢
+    simp [hk, this]
+
+/-- `mergedKeys` has exactly the members of both key lists -/
+theorem mem_mergedKeys (explicit implied : List S) (k : S) :
+    k ∈ mergedKeys explicit implied ↔ k ∈ explicit ∨ k ∈ implied := by
+  unfold mergedKeys
+  simp only [List.mem_append, List.mem_filter, Bool.not_eq_true', List.contains_eq_mem, decide_eq_false_iff_not]
+  constructor
+  · rintro (h | ⟨h, _⟩)
+    · exact Or.inl h
+    · exact Or.inr h
+  · rintro (h | h)
+    · exact Or.inl h
+    · by_cases hk : k ∈ explicit
+      · exact Or.inl hk
+      · exact Or.inr ⟨h, hk⟩
+
+/-- **derived_folder_iff.**  Without an explicit manifest, `n` is a top-level folder of the package
+**iff** the package directory has an entry `n` that resolves to a directory (a real directory or a
+link / chain of links ending in one): nothing more (no file, no link to a file, no broken link), nothing
+less (no linked directory is left out). -/
+theorem derived_folder_iff (l : List Entry) (hl : ListingOk l) (n : S) :
+    n ∈ packageFolders (some l) [] ↔ ∃ e ∈ l, e.name = n ∧ e.kind.isDir = true := by
+  have hflat : ∀ k ∈ mergedKeys [] (impliedKeys (some l) true false), '/' ∉ k := by
+    intro k hk
+    rcases (mem_mergedKeys _ _ k).mp hk with h | h
+    · cases h
+    · obtain ⟨e, he, rfl, _⟩ := (mem_impliedKeys_iff l true false k).mp h
+      exact hl e he
+  unfold packageFolders
+  rw [topLevelFolders_flat _ hflat, mem_mergedKeys, mem_impliedKeys_iff]
+  simp
+
+/-- **packageFolders_superset.**  Whatever the explicit manifest is, the folder set of the loaded
+package contains the left-most folder of every explicit key and every entry of the package directory
+that resolves to a directory. -/
+theorem packageFolders_superset (l : List Entry) (explicit : List S) :
+    (∀ k ∈ explicit, firstSeg k ∈ packageFolders (some l) explicit) ∧
+    (∀ e ∈ l, e.kind.isDir = true → firstSeg e.name ∈ packageFolders (some l) explicit) := by
+  constructor
+  · intro k hk
+    exact (firstSeg_under_key_mem _ k [] ((mem_mergedKeys _ _ k).mpr (Or.inl hk))).2
+  · intro e he hd
+    have : e.name ∈ impliedKeys (some l) true false :=
+      (mem_impliedKeys_iff l true false e.name).mpr ⟨e, he, rfl, Or.inl ⟨rfl, hd⟩⟩
+    exact (firstSeg_under_key_mem _ e.name [] ((mem_mergedKeys _ _ e.name).mpr (Or.inr this))).2
+
+/-- **link_to_directory_is_top_level_folder.**  A symbolic link to a directory at the top level of the
+package is a top-level folder of the package, with or without an explicit manifest. -/
+theorem link_to_directory_is_top_level_folder (l : List Entry) (explicit : List S) (e : Entry)
+    (he : e ∈ l) (hk : e.kind = .linkDir) (hn : '/' ∉ e.name) : e.name ∈ packageFolders (some l) explicit := by
+  have h := (packageFolders_superset l explicit).2 e he (by rw [hk]; rfl)
+  have hfs : firstSeg e.name = e.name := by
+    simp [firstSeg, splitProd, (splitFirst_none_iff '/' e.name).mpr hn]
+  rwa [hfs] at h
+
+/-- **directory_entry_never_component.**  Let `e` be an entry of the package directory that resolves
+to a directory.  Under the folder set that loading the package derives from disk (any explicit
+manifest), a reference `e:m` or `e/rest:m` without stage prefix is never treated as a reference to a
+component by `ParseDataReferenceFull`. -/
+theorem directory_entry_never_component (sf : List S) (l : List Entry) (explicit : List S) (e : Entry)
+    (he : e ∈ l) (hd : e.kind.isDir = true)
+    (value pre m' : S) (i : Nat) (deps : List S) (si : Option Nat) (job : S) (file : Option S) (m : S)
+    (hs : splitColon2 value = some (pre, m'))
+    (hpre : pre = e.name ∨ ∃ rest, pre = e.name ++ '/' :: rest)
+    (h : parseFullX sf value (some i) deps (packageFolders (some l) explicit) = some (si, job, file, m, false)) :
+    si = none := by
+  have hmem : e.name ∈ mergedKeys explicit (impliedKeys (some l) true false) :=
+    (mem_mergedKeys _ _ _).mpr (Or.inr ((mem_impliedKeys_iff l true false e.name).mpr ⟨e, he, rfl, Or.inl ⟨rfl, hd⟩⟩))
+  exact manifest_top_level sf _ e.name hmem value pre m' i deps si job file m hs hpre h
+
+/-- **directory_entry_not_expanded.**  … and `expand_component_references` leaves it as it is (when its
+first segment is not also the name of a known component of the context stage). -/
+theorem directory_entry_not_expanded (sf : List S) (l : List Entry) (explicit : List S) (e : Entry)
+    (he : e ∈ l) (hd : e.kind.isDir = true)
+    (value pre m' : S) (ctx : Nat) (known : Option (List (Nat × List S))) (deps : List S)
+    (si : Option Nat) (prod : S) (file : Option S) (m : S)
+    (hs : splitColon2 value = some (pre, m'))
+    (hpre : pre = e.name ∨ ∃ rest, pre = e.name ++ '/' :: rest)
+    (hp : parseFullX sf value none [] [] = some (si, prod, file, m, false))
+    (habs : isAbs pre = false)
+    (hk : ∀ k, known = some k → ∀ x ∈ knownAt k ctx, x ≠ firstSeg pre ∧ '/' ∉ x) :
+    expandOne sf value ctx known deps (packageFolders (some l) explicit) = some value := by
+  have hmem : e.name ∈ mergedKeys explicit (impliedKeys (some l) true false) :=
+    (mem_mergedKeys _ _ _).mpr (Or.inr ((mem_impliedKeys_iff l true false e.name).mpr ⟨e, he, rfl, Or.inl ⟨rfl, hd⟩⟩))
+  have hf : firstSeg pre ∈ packageFolders (some l) explicit := by
+    rcases hpre with rfl | ⟨rest, rfl⟩
+    · exact (firstSeg_under_key_mem _ _ [] hmem).2
+    · exact (firstSeg_under_key_mem _ e.name rest hmem).1
+  apply direct_reference_not_expanded sf value pre m' ctx known deps _ si prod file m hs hp habs _ hk
+  simp [expandAllFolders, hf]
+
+/-- **directory_entry_not_a_component_reference.**  … and `is_datareference_to_component` answers
+`False` for it under the derived folder set. -/
+theorem directory_entry_not_a_component_reference (sf : List S) (l : List Entry) (explicit : List S) (e : Entry)
+    (he : e ∈ l) (hd : e.kind.isDir = true)
+    (value pre m' ref : S) (file : Option S) (m : S)
+    (hs : splitColon2 value = some (pre, m'))
+    (hpre : pre = e.name ∨ ∃ rest, pre = e.name ++ '/' :: rest)
+    (hdr : parseDataReference sf value = some (ref, file, m))
+    (habs : isAbs pre = false)
+    (hni : (parseProducerReference ref none).2.2 = false) :
+    isDataRefToComponent sf value (packageFolders (some l) explicit) = some false := by
+  have hmem : e.name ∈ mergedKeys explicit (impliedKeys (some l) true false) :=
+    (mem_mergedKeys _ _ _).mpr (Or.inr ((mem_impliedKeys_iff l true false e.name).mpr ⟨e, he, rfl, Or.inl ⟨rfl, hd⟩⟩))
+  have hf : firstSeg pre ∈ packageFolders (some l) explicit := by
+    rcases hpre with rfl | ⟨rest, rfl⟩
+    · exact (firstSeg_under_key_mem _ _ [] hmem).2
+    · exact (firstSeg_under_key_mem _ e.name rest hmem).1
+  obtain ⟨pre2, hs2, hc⟩ := pdr_cases sf value ref m file hdr
+  have hpp : pre2 = pre := by
+    rw [hs] at hs2; simp only [Option.some.injEq, Prod.mk.injEq] at hs2; exact hs2.1.symm
+  subst hpp
+  have hprod : ref = firstSeg pre2 ∨ '/' ∈ ref := by
+    rcases hc with ⟨ha, _, _⟩ | ⟨_, hq, hr, _⟩ | ⟨_, a, b, hq, _, hr, _⟩ | ⟨_, a, b, hq, _, hr, _⟩
+    · rw [habs] at ha; cases ha
+    · left; simp [firstSeg, splitProd, hq, hr]
+    · right; obtain ⟨hab, _⟩ := splitFirst_some '/' pre2 a b hq; rw [hr, hab]; simp
+    · left; simp [firstSeg, splitProd, hq, hr]
+  unfold isDataRefToComponent
+  rw [hdr]
+  simp only [ppr_noIndex ref none hni]
+  rcases hprod with e1 | e1
+  · have : ref ∈ packageFolders (some l) explicit := e1 ▸ hf
+    simp [this]
+  · simp [e1]
+
+/-- **instance_keeps_package_folders.**  Every top-level folder of a package directory is a top-level
+folder of the instance directory created from it (entries are copied with their kind: links stay
+links), and so are `input`, `stages` and `output`. -/
+theorem instance_keeps_package_folders (pkg : List Entry) (n : S) (h : n ∈ packageFolders (some pkg) []) :
+    n ∈ packageFolders (some (instanceListing pkg)) [] := by
+  unfold packageFolders at h ⊢
+  obtain ⟨k, hk, rfl⟩ := List.mem_map.mp h
+  refine List.mem_map.mpr ⟨k, ?_, rfl⟩
+  rcases (mem_mergedKeys _ _ k).mp hk with h0 | h0
+  · cases h0
+  · obtain ⟨e, he, hn, hc⟩ := (mem_impliedKeys_iff pkg true false k).mp h0
+    exact (mem_mergedKeys _ _ k).mpr (Or.inr ((mem_impliedKeys_iff _ true false k).mpr
+      ⟨e, by simp [instanceListing, he], hn, hc⟩))
+
+/-- **deployed_manifest_folder.**  The entry that deploying a manifest key (`:copy` or `:link`) creates
+in the instance directory resolves to a directory and is called like the left-most folder of the key:
+when the instance is loaded again, that folder is in the derived set whichever method deployed it. -/
+theorem deployed_manifest_folder (key : S) (m : Deploy) (l : List Entry) (h : deployEntry key m ∈ l) :
+    (deployEntry key m).kind.isDir = true ∧ (deployEntry key m).name = firstSeg key ∧
+      firstSeg key ∈ packageFolders (some l) [] := by
+  have h1 : (deployEntry key m).kind.isDir = true := by
+    unfold deployEntry
+    cases splitFirst '/' key with
+    | none => cases m <;> rfl
+    | some ab => rfl
+  have h2 : (deployEntry key m).name = firstSeg key := by
+    unfold deployEntry firstSeg splitProd
+    cases splitFirst '/' key with
+    | none => rfl
+    | some ab => rfl
+  refine ⟨h1, h2, ?_⟩
+  have := (packageFolders_superset l []).2 _ h h1
+  rw [h2] at this
+  have hidem : firstSeg (firstSeg key) = firstSeg key := by
+    have hn : '/' ∉ firstSeg key := splitProd_fst_no_slash key
+    have hq : splitFirst '/' (firstSeg key) = none := (splitFirst_none_iff '/' _).mpr hn
+    show (splitProd (firstSeg key)).1 = firstSeg key
+    unfold splitProd
+    rw [hq]
+  rwa [hidem] at this
+
 /-! ## Non-vacuity: the hypotheses are satisfiable by non-trivial inputs -/
+
+/-- a package directory with a real folder, a linked folder, a file, a link to a file and a broken
+link: the folder set, and a reference into the linked folder -/
+example : packageFolders (some [⟨"conf".toList, .dir⟩, ⟨"forcefield".toList, .linkDir⟩, ⟨"README.md".toList, .file⟩,
+      ⟨"latest".toList, .linkFile⟩, ⟨"gone".toList, .broken⟩]) ["data/sets".toList]
+    = ["data".toList, "conf".toList, "forcefield".toList] := by decide
+
+example : parseFullX Gen.C09.specialFoldersC "forcefield/params.txt:ref".toList (some 0) []
+      (packageFolders (some [⟨"conf".toList, .dir⟩, ⟨"forcefield".toList, .linkDir⟩]) [])
+    = some (none, "forcefield".toList, some "params.txt".toList, "ref".toList, false) := by decide
+
+example : isDataRefToComponent Gen.C09.specialFoldersC "forcefield:copy".toList
+      (packageFolders (some [⟨"forcefield".toList, .linkDir⟩, ⟨"gone".toList, .broken⟩]) []) = some false ∧
+    isDataRefToComponent Gen.C09.specialFoldersC "gone:copy".toList
+      (packageFolders (some [⟨"forcefield".toList, .linkDir⟩, ⟨"gone".toList, .broken⟩]) []) = some true := by decide
+
+example : ListingOk [⟨"conf".toList, .dir⟩, ⟨"forcefield".toList, .linkDir⟩] := by unfold ListingOk; decide
 
 example : WFparts "gen.x-1".toList (some "out/a.txt".toList) "ref".toList := by unfold WFparts; decide
 
